@@ -54,7 +54,14 @@ func (e *eventStream) Receive(c *Context) {
 			level, msg, attr := logMsg.Log()
 			slog.Log(context.Background(), level, msg, attr...)
 		}
-		for _, sub := range e.subs {
+		for key, sub := range e.subs {
+			// A local subscriber that is gone without having unsubscribed is
+			// dropped. Forwarding to it would come back as a DeadLetterEvent,
+			// which would be forwarded to it again, without end.
+			if c.engine.isLocalMessage(sub) && c.engine.Registry.get(sub) == nil {
+				delete(e.subs, key)
+				continue
+			}
 			c.Forward(sub)
 		}
 	}
